@@ -5,12 +5,12 @@ P=$1; I=$2; WT=/tmp/mut-$P; OUT=/tmp/mut-$P-out/$I; B=$WT-build
 git -C $WT checkout -q -- . ; git -C $WT checkout -q --detach $(git -C /repo rev-parse HEAD) 2>/dev/null
 git -C $WT apply $OUT/patch.diff || { echo "$P/$I: PATCH DOES NOT APPLY to current HEAD"; exit 1; }
 rm -rf $B
-cmake -G Ninja -S $WT -B $B -DCMAKE_BUILD_TYPE=RelWithDebInfo -DCMAKE_C_FLAGS=-Wno-error -DREPROC_TEST=ON -DREPROC_MULTITHREADED=ON > /tmp/cm-$P-$I.log 2>&1 && cmake --build $B >> /tmp/cm-$P-$I.log 2>&1 || { echo "$P/$I: BUILD FAILS with change"; git -C $WT checkout -q -- .; exit 1; }
+cmake -G Ninja -S $WT -B $B -DCMAKE_BUILD_TYPE=RelWithDebInfo -DCMAKE_C_FLAGS=-Wno-error -DREPROC_TEST=ON -DREPROC_MULTITHREADED=ON -DREPROC++=ON > /tmp/cm-$P-$I.log 2>&1 && cmake --build $B >> /tmp/cm-$P-$I.log 2>&1 || { echo "$P/$I: BUILD FAILS with change"; git -C $WT checkout -q -- .; exit 1; }
 T=$(ctest --test-dir $B -j8 2>&1 | grep "tests passed" )
 (cd $OUT && timeout 600 bash ./run.sh > /tmp/demo-$P-$I-with.log 2>&1); W=$?
 git -C $WT checkout -q -- .
 rm -rf $B
-cmake -G Ninja -S $WT -B $B -DCMAKE_BUILD_TYPE=RelWithDebInfo -DCMAKE_C_FLAGS=-Wno-error -DREPROC_TEST=ON -DREPROC_MULTITHREADED=ON > /tmp/cm-$P-$I.log 2>&1 && cmake --build $B >> /tmp/cm-$P-$I.log 2>&1
+cmake -G Ninja -S $WT -B $B -DCMAKE_BUILD_TYPE=RelWithDebInfo -DCMAKE_C_FLAGS=-Wno-error -DREPROC_TEST=ON -DREPROC_MULTITHREADED=ON -DREPROC++=ON > /tmp/cm-$P-$I.log 2>&1 && cmake --build $B >> /tmp/cm-$P-$I.log 2>&1
 (cd $OUT && timeout 600 bash ./run.sh > /tmp/demo-$P-$I-without.log 2>&1); WO=$?
 rm -rf $B
 echo "$P/$I: tests-with-change: [$T] demo-with-change exit=$W demo-on-HEAD exit=$WO"
